@@ -67,7 +67,7 @@ def _pure(fn):
 # caller-owned arrays handed to the library must come back unchanged (see tqv/purity.py)
 from tqv.purity import install as _install_purity  # noqa: E402
 
-_install_purity('toqito.channel_ops', 'toqito.helper')
+_install_purity('toqito.channel_ops', 'toqito.helper', twice=True)
 
 PROPERTY = "C04"
 RULE = (
